@@ -1577,7 +1577,11 @@ func getEniOptions(node *networkv1beta1.Node) []*eniOptions {
 func addIPToMap(in map[string]*networkv1beta1.IP, ip *networkv1beta1.IP) {
 	v, ok := in[ip.IP]
 	if ok {
-		v.Status = ip.Status
+		// an address already marked for removal stays so: a reconcile that works on a slightly
+		// older view of the cr may be unassigning it right now
+		if v.Status != networkv1beta1.IPStatusDeleting {
+			v.Status = ip.Status
+		}
 		v.Primary = ip.Primary
 		if v.PodID == "" {
 			v.PodID = ip.PodID
